@@ -12,6 +12,7 @@ from sa.pyindex import get_module, dotted, src, calls_in, try_fold
 from sa import flow
 
 from rules import _opcodes as O
+from rules import _util_c16c19 as U
 from refs import opcode_refs as REF
 
 EXPLANATION = (
@@ -312,6 +313,41 @@ def _find_call_stmt(mod, fn, name):
   return hits[0], mod.enclosing_stmt(hits[0])
 
 
+def _resolve_index(mod, fn, use_stmt, idx, tvar, idx_p, depth=4):
+  """The `<idx_p>[...]` lookup an index expression denotes at `use_stmt`.
+
+  Followed: the lookup itself; a local bound exactly once in the function by a
+  statement with the same path condition that precedes the use (hoisted
+  temporary); an operand slot `<op>.<attr>` assigned, under the same path
+  condition and before the use, from such a value (also through a chained
+  assignment `op.arg = op.argval = <value>`).  None = not understood."""
+  g_use = flow.guards_txt(mod.parent, use_stmt, stop=fn)
+  for _ in range(depth):
+    if isinstance(idx, ast.Subscript) and dotted(idx.value) == idx_p:
+      return idx
+    cands = []
+    for s2 in ast.walk(fn):
+      if not isinstance(s2, ast.Assign) or s2 is use_stmt:
+        continue
+      for t in s2.targets:
+        same = (isinstance(idx, ast.Name) and isinstance(t, ast.Name) and t.id == idx.id) or (
+            isinstance(idx, ast.Attribute) and isinstance(t, ast.Attribute)
+            and t.attr == idx.attr and dotted(t.value) == dotted(idx.value) == tvar)
+        if same:
+          cands.append(s2)
+    if isinstance(idx, ast.Name):
+      other = [n for n in ast.walk(fn) if isinstance(n, ast.Name) and n.id == idx.id
+               and isinstance(n.ctx, (ast.Store, ast.Del))]
+      if len(other) != 1 or idx.id in {a.arg for a in fn.args.args}:
+        return None
+    cands = [c for c in cands if c.lineno <= use_stmt.lineno
+             and flow.guards_txt(mod.parent, c, stop=fn) == g_use]
+    if len(cands) != 1:
+      return None
+    use_stmt, idx = cands[0], cands[0].value
+  return None
+
+
 @rule("R16.3", "C16", floor=5)
 def r16_3(ctx):
   """Jump targets are resolved for exactly the known jumps, at the right time."""
@@ -349,20 +385,24 @@ def r16_3(ctx):
   val = st.value
   via = None
   if isinstance(val, ast.Subscript) and dotted(val.value) == ops_p:
-    idx = val.slice
-    # either offset_to_index[op.argval] directly, or op.arg assigned from it just before
-    txt = src(idx)
-    if isinstance(idx, ast.Attribute) and dotted(idx.value) == tvar:
-      for s2 in ast.walk(fn):
-        if isinstance(s2, ast.Assign) and any(
-            isinstance(t, ast.Attribute) and t.attr == idx.attr and dotted(t.value) == tvar
-            for t in s2.targets) and isinstance(s2.value, ast.Subscript) and \
-            dotted(s2.value.value) == idx_p and s2.lineno <= st.lineno and \
-            [(src(t), p) for t, p in flow.guards(mod.parent, s2, stop=fn)] == \
-            [(src(t), p) for t, p in flow.guards(mod.parent, st, stop=fn)]:
-          via = src(s2.value.slice)
-    elif isinstance(idx, ast.Subscript) and dotted(idx.value) == idx_p:
-      via = src(idx.slice)
+    lookup = _resolve_index(mod, fn, st, val.slice, tvar, idx_p)
+    if lookup is not None:
+      via = src(lookup.slice)
+      # the operand read by the lookup must still be the reader's value: no
+      # assignment to it may precede the lookup on the same path
+      if isinstance(lookup.slice, ast.Attribute) and dotted(lookup.slice.value) == tvar:
+        lst = mod.enclosing_stmt(lookup)
+        g0 = flow.guards_txt(mod.parent, lst, stop=fn)
+        for s2 in ast.walk(fn):
+          if isinstance(s2, ast.Assign) and s2 is not lst and s2.lineno < lst.lineno and any(
+              isinstance(t, ast.Attribute) and t.attr == lookup.slice.attr
+              and dotted(t.value) == tvar for t in s2.targets) and \
+              flow.guards_txt(mod.parent, s2, stop=fn) == g0:
+            via = f"{via} (overwritten at line {s2.lineno} before the lookup)"
+  if via is None:
+    raise AnalysisError(
+        f"{OPC}: _add_jump_targets: how the index of `{src(val)}` is obtained from "
+        f"{idx_p} is not understood")
   ctx.check(via == f"{tvar}.argval", "_add_jump_targets:index", OPC, st.lineno,
             "the target must be ops[offset_to_index[op.argval]] (argval is the "
             f"decoded target offset); found index via `{via}`",
@@ -506,10 +546,22 @@ def _slice_positions(mod, it, blockvar):
   return None
 
 
+class _View:
+  """compute_order with its module-local helper calls inlined (so the edge
+  wiring may live in `compute_order` itself or in helpers it delegates to)."""
+
+  def __init__(self, mod, fn, parent, inlined):
+    self.mod, self.fn, self.parent, self.inlined = mod, fn, parent, inlined
+
+  def enclosing_stmt(self, node):
+    return U.enclosing_stmt(self.parent, node)
+
+
 def _edge_loop(ctx):
   """The `for i, block in enumerate(blocks)` loop of compute_order."""
   mod = get_module(ctx, BLOCKS)
-  fn = mod.func("compute_order")
+  fn, parent, inlined = U.inline_local_calls(mod, mod.func("compute_order"), depth=2)
+  view = _View(mod, fn, parent, inlined)
   loops = [n for n in fn.body if isinstance(n, ast.For) and any(
       isinstance(c.func, ast.Attribute) and c.func.attr == "connect_outgoing"
       for c in calls_in(n))]
@@ -527,7 +579,7 @@ def _edge_loop(ctx):
     blocks = dotted(loop.iter)
   else:
     raise AnalysisError(f"{BLOCKS}: compute_order's loop header not understood")
-  return mod, fn, loop, blockvar, idxvar, blocks
+  return view, fn, loop, blockvar, idxvar, blocks
 
 
 def _edges(ctx):
@@ -617,43 +669,95 @@ def _guard_ok(e, blockvar, extra_allowed=()):
   return unknown
 
 
+class _Closing:
+  """The block-closing predicate of _split_bytecode as a boolean formula."""
+
+  def closes_on(self, fact):
+    """Does `fact` (a flag helper of the instruction, 'next-is-None' or
+    'next-in-targets') close the block?  Flag helpers and end-of-code must
+    close it whatever the other atoms are; next-in-targets must be able to
+    close it when nothing else does (it may be conjoined with an exemption)."""
+    if fact == "next-in-targets":
+      key = self.in_targets
+      if key is None:
+        return False
+      fixed = {key: True}
+      for k in list(self.flags.values()) + [self.next_none]:
+        if k is not None:
+          fixed[k] = False
+      return any(U.eval_formula(self.formula, v)
+                 for v in U.assignments(list(self.atoms), fixed))
+    key = self.next_none if fact == "next-is-None" else self.flags.get(fact)
+    return key is not None and U.forces_true(self.formula, key, list(self.atoms))
+
+
+def closing_predicate(mod, helper_names):
+  """Locates the `if <pred>: ... Block(code) ...` of _split_bytecode that
+  decides, right after an instruction was appended, whether the block ends.
+
+  The predicate may be spelled inline (`a() or b() or ...`) or delegated to a
+  module-local helper written with guard clauses; both are read as one boolean
+  formula over the same atoms (see rules/_util_c16c19.bool_formula)."""
+  sp = mod.func("_split_bytecode")
+  compound = (ast.If, ast.For, ast.While, ast.Try, ast.With)
+  cands = []
+  for n in ast.walk(sp):
+    if not isinstance(n, ast.If) or not any(
+        dotted(c.func) == "Block" for st in n.body if not isinstance(st, compound)
+        for c in calls_in(st)):
+      continue
+    f = U.bool_formula(mod, n.test, depth=2)
+    atoms = U.formula_atoms(f)
+    flags = {}
+    recv = set()
+    for key, node in atoms.items():
+      if isinstance(node, ast.Call) and isinstance(node.func, ast.Attribute) \
+          and not node.args and not node.keywords and isinstance(node.func.value, ast.Name) \
+          and node.func.attr in helper_names:
+        flags[node.func.attr] = key
+        recv.add(node.func.value.id)
+    if flags:
+      cands.append((n, f, atoms, flags, recv))
+  if len(cands) != 1:
+    raise AnalysisError(f"{BLOCKS}: _split_bytecode's block-closing `if` not found")
+  n, f, atoms, flags, recv = cands[0]
+  if len(recv) != 1:
+    raise AnalysisError(f"{BLOCKS}: block-closing predicate tests several objects")
+  cp = _Closing()
+  cp.fn, cp.node, cp.formula, cp.atoms, cp.flags = sp, n, f, atoms, flags
+  cp.opv = opv = recv.pop()
+  cp.via = "inline" if all(k in src(n.test) for k in flags.values()) else "helper predicate"
+  cp.next_none = cp.in_targets = cp.targets = None
+  tnames = set()
+  for key, node in atoms.items():
+    if isinstance(node, ast.Compare) and len(node.ops) == 1 and dotted(node.left) == f"{opv}.next":
+      c0 = node.comparators[0]
+      if isinstance(node.ops[0], ast.Is) and isinstance(c0, ast.Constant) and c0.value is None:
+        cp.next_none = key
+      elif isinstance(node.ops[0], ast.In) and isinstance(c0, ast.Name):
+        cp.in_targets = key
+        tnames.add(c0.id)
+  if len(tnames) > 1:
+    raise AnalysisError(f"{BLOCKS}: block-closing predicate tests membership in several sets")
+  if tnames:
+    cp.targets = tnames.pop()
+  return cp
+
+
 @rule("R16.4", "C16", floor=16)
 def r16_4(ctx):
   """The splitter, the edge builder and the orderer use every needed fact."""
   tab = O.opcode_table(ctx)
   mod = get_module(ctx, BLOCKS)
-  sp = mod.func("_split_bytecode")
+  helpers = tab.helpers()
+  cp = closing_predicate(mod, set(helpers))
+  sp, cl, opv = cp.fn, cp.node, cp.opv
   bytecode_p = sp.args.args[0].arg
-  # the `if <pred>: Block(code) ... code = []` that closes a block after `op`
-  closers = []
-  for n in ast.walk(sp):
-    if isinstance(n, ast.If) and isinstance(n.test, ast.BoolOp) and \
-        isinstance(n.test.op, ast.Or) and any(
-            dotted(c.func) == "Block" for st in n.body for c in calls_in(st)):
-      closers.append(n)
-  if len(closers) != 1:
-    raise AnalysisError(f"{BLOCKS}: _split_bytecode's block-closing `if` not found")
-  cl = closers[0]
-  disj = cl.test.values
-  # the instruction variable: receiver of the flag calls
-  recv = {dotted(d.func.value) for d in disj if isinstance(d, ast.Call)
-          and isinstance(d.func, ast.Attribute)}
-  if len(recv) != 1:
-    raise AnalysisError(f"{BLOCKS}: block-closing predicate tests several objects")
-  opv = recv.pop()
   # it must be the instruction just appended to the current block
   appended = any(isinstance(c.func, ast.Attribute) and c.func.attr == "append"
                  and c.args and dotted(c.args[0]) == opv for c in calls_in(sp))
-  # the set `<op>.next in <targets>` is tested against
-  targets_names = set()
-  for d in disj:
-    first = d.values[0] if isinstance(d, ast.BoolOp) and isinstance(d.op, ast.And) else d
-    if isinstance(first, ast.Compare) and len(first.ops) == 1 and \
-        isinstance(first.ops[0], ast.In) and dotted(first.left) == f"{opv}.next" \
-        and isinstance(first.comparators[0], ast.Name):
-      targets_names.add(first.comparators[0].id)
-  if len(targets_names) == 1:
-    tname = next(iter(targets_names))
+  if cp.targets is not None:
+    tname = cp.targets
     defs = [st for st in ast.walk(sp) if isinstance(st, ast.Assign)
             and any(dotted(t) == tname for t in st.targets)]
     if len(defs) != 1 or not isinstance(defs[0].value, ast.SetComp):
@@ -670,33 +774,17 @@ def r16_4(ctx):
               "the jump-target set must hold the .target of every "
               f"instruction of the bytecode; found `{src(sc)}`",
               {"set": src(sc)})
-  helpers = tab.helpers()
-  found = {}
-  for d in disj:
-    if isinstance(d, ast.Call) and isinstance(d.func, ast.Attribute) and \
-        dotted(d.func.value) == opv and not d.args:
-      found[d.func.attr] = True
-    elif isinstance(d, ast.Compare) and len(d.ops) == 1 and \
-        isinstance(d.ops[0], ast.Is) and dotted(d.left) == f"{opv}.next" and \
-        isinstance(d.comparators[0], ast.Constant) and d.comparators[0].value is None:
-      found["next-is-None"] = True
-    else:
-      first = d.values[0] if isinstance(d, ast.BoolOp) and isinstance(d.op, ast.And) else d
-      if isinstance(first, ast.Compare) and len(first.ops) == 1 and \
-          isinstance(first.ops[0], ast.In) and dotted(first.left) == f"{opv}.next" \
-          and dotted(first.comparators[0]) in targets_names:
-        found["next-in-targets"] = True
   for fact in ("no_next", "does_jump", "pops_block", "next-is-None", "next-in-targets"):
-    ok = found.get(fact, False) and appended
     if fact in ("no_next", "does_jump", "pops_block") and fact not in helpers:
       raise AnalysisError(f"{OPC}: helper {fact} missing")
+    ok = cp.closes_on(fact) and appended
     ctx.check(ok, f"_split_bytecode:closes-on:{fact}", BLOCKS, cl.lineno,
               f"a block must be closed after an instruction when `{fact}` holds "
-              "(top-level disjunct of the closing predicate)",
-              {"disjuncts": [src(d)[:60] for d in disj]})
+              "(whatever the other tests of the closing predicate say)",
+              {"atoms": [k[:60] for k in cp.atoms], "via": cp.via})
 
   # compute_order edges
-  (mod, fn, loop, blockvar, idxvar, blocks, pos, maps, edges) = _edges(ctx)
+  (_view, fn, loop, blockvar, idxvar, blocks, pos, maps, edges) = _edges(ctx)
   # next_block = blocks[i + 1] ...
   nxt = [e for e in edges if e["kind"] == "next"]
   ok = False
@@ -766,7 +854,8 @@ def r16_4(ctx):
 
   # order_nodes: min over (len(predecessors), node.id, node)
   cmod = get_module(ctx, CFG_UTILS)
-  on = cmod.func("order_nodes")
+  # (helpers such as "pop the next node from the queue" are read inline)
+  on, _on_parent, _on_inlined = U.inline_local_calls(cmod, cmod.func("order_nodes"), depth=2)
   mins = [c for c in calls_in(on) if dotted(c.func) == "min"]
   key = None
   if len(mins) == 1 and len(mins[0].args) == 1 and \
@@ -776,8 +865,9 @@ def r16_4(ctx):
     g = ge.generators[0]
     if isinstance(g.target, ast.Tuple) and len(g.target.elts) == 2:
       nv, pv = (dotted(x) for x in g.target.elts)
-      norm = [src(e).replace(nv, "N").replace(pv, "P") for e in ge.elt.elts]
-      key = norm
+      import copy
+      rn = U._Renamer({nv: "N", pv: "P"})  # pylint: disable=protected-access
+      key = [src(rn.visit(copy.deepcopy(e))) for e in ge.elt.elts]
   elif len(mins) == 1 and any(k.arg == "key" for k in mins[0].keywords):
     raise AnalysisError(f"{CFG_UTILS}: order_nodes uses min(key=...); idiom not understood")
   if key is None:
@@ -861,6 +951,76 @@ def r16_5(ctx):
 
 # -- R16.6 ------------------------------------------------------------------------
 
+def _isinstance_classes(ctx, mod, node, varname, fn, group=(), _depth=2):
+  """Opcode classes `varname` is known to be an instance of at `node`: like
+  rules/_opcodes.isinstance_guard, and additionally resolves a class tuple that
+  is bound once to a local of `fn` (`setup_except_op = (opcodes.A, opcodes.B)`)
+  and, when `fn` is a helper of `group` that receives `varname` as a
+  never-rebound parameter and tests nothing itself, what every call site in the
+  group knows about the argument (union over the sites, None if one is unknown)."""
+  local = {}
+  stores = {}
+  for n in U.walk_scope(fn):
+    if isinstance(n, ast.Name) and isinstance(n.ctx, (ast.Store, ast.Del)):
+      stores[n.id] = stores.get(n.id, 0) + 1
+  for n in U.walk_scope(fn):
+    if isinstance(n, ast.Assign) and len(n.targets) == 1 and isinstance(n.targets[0], ast.Name) \
+        and stores.get(n.targets[0].id) == 1 and isinstance(n.value, ast.Tuple):
+      names = O.class_names(ctx, mod, n.value)
+      if names:
+        local[n.targets[0].id] = names
+  facts = []
+  cur = node
+  while cur in mod.parent and not isinstance(cur, ast.stmt):
+    par = mod.parent[cur]
+    if isinstance(par, ast.BoolOp) and cur in par.values:
+      pol = isinstance(par.op, ast.And)
+      for v in par.values[:par.values.index(cur)]:
+        facts.extend(O._conjuncts(v, pol))  # pylint: disable=protected-access
+    elif isinstance(par, ast.IfExp):
+      if cur is par.body:
+        facts.extend(O._conjuncts(par.test, True))  # pylint: disable=protected-access
+      elif cur is par.orelse:
+        facts.extend(O._conjuncts(par.test, False))  # pylint: disable=protected-access
+    cur = par
+  if isinstance(cur, ast.stmt):
+    for t, pol in flow.guards(mod.parent, cur, stop=fn):
+      facts.extend(O._conjuncts(t, pol))  # pylint: disable=protected-access
+  result = None
+  for e, pol in facts:
+    if pol and isinstance(e, ast.Call) and dotted(e.func) == "isinstance" and \
+        len(e.args) == 2 and isinstance(e.args[0], ast.Name) and e.args[0].id == varname:
+      a1 = e.args[1]
+      names = local.get(a1.id) if isinstance(a1, ast.Name) and a1.id in stores else \
+          O.class_names(ctx, mod, a1)
+      if names is None:
+        continue
+      result = names if result is None else (result & names)
+  params = U.params_of(fn)
+  if result is None and _depth > 0 and varname in params and stores.get(varname, 0) == 0:
+    sites = []
+    for g in group:
+      if g is fn:
+        continue
+      for c in calls_in(g):
+        if U.callee_of(mod, c) is fn:
+          sites.append((g, c))
+    union = set()
+    for g, c in sites:
+      try:
+        bound = dict(U._bind(fn, c, False))  # pylint: disable=protected-access
+      except U.NotInlinable:
+        return None
+      a = bound.get(varname)
+      got = _isinstance_classes(ctx, mod, c, a.id, g, group, _depth - 1) \
+          if isinstance(a, ast.Name) else None
+      if got is None:
+        return None
+      union |= got
+    result = union or None
+  return result
+
+
 @rule("R16.6", "C16", floor=6)
 def r16_6(ctx):
   """Block-setup instructions push a block; POP_BLOCK ends its basic block."""
@@ -868,12 +1028,26 @@ def r16_6(ctx):
   refs = _refs(ctx)
   mod = get_module(ctx, BLOCKS)
   ap = mod.func("add_pop_block_targets")
+  # the pass and the module-local helpers it delegates the block-stack
+  # bookkeeping to (two levels)
+  group = U.local_callees(mod, ap, depth=2)
+  # classes recognised by isinstance as pushing a block: an instruction `v`
+  # known to be an instance of them is appended to a tuple (`stack += (v,)`,
+  # `stack + (v,)`) - whether the test is spelled with a local tuple, a module
+  # constant or the classes themselves
   setup_tuple = set()
-  for st in ast.walk(ap):
-    if isinstance(st, ast.Assign) and isinstance(st.value, ast.Tuple):
-      names = O.class_names(ctx, mod, st.value)
-      if names:
-        setup_tuple |= names
+  for gfn in group:
+    for n in U.walk_scope(gfn):
+      pushed = None
+      if isinstance(n, ast.AugAssign) and isinstance(n.op, ast.Add):
+        pushed = n.value
+      elif isinstance(n, ast.BinOp) and isinstance(n.op, ast.Add):
+        pushed = n.right
+      if isinstance(pushed, ast.Tuple) and len(pushed.elts) == 1 \
+          and isinstance(pushed.elts[0], ast.Name):
+        names = _isinstance_classes(ctx, mod, n, pushed.elts[0].id, gfn, group)
+        if names:
+          setup_tuple |= names
   reachable = set()
   for v in O.VERSIONS:
     reachable |= set(refs[v]["num"])
@@ -913,15 +1087,16 @@ def r16_6(ctx):
   if n < 4:
     raise AnalysisError("fewer block-structure opcodes than expected")
   # POP_BLOCK's block_target is set from the block stack
-  sets = [st for st in ast.walk(ap) if isinstance(st, ast.Assign) and any(
-      isinstance(t, ast.Attribute) and t.attr == "block_target" for t in st.targets)
-      and not (isinstance(st.value, ast.Constant) and st.value.value is None)]
   pb = []
-  for st in sets:
-    tv = [t for t in st.targets if isinstance(t, ast.Attribute)][0].value
-    g = O.isinstance_guard(ctx, mod, st, dotted(tv), ap) if isinstance(tv, ast.Name) else None
-    if g and g <= REF.BLOCK_POP:
-      pb.append(st)
+  for gfn in group:
+    sets = [st for st in U.walk_scope(gfn) if isinstance(st, ast.Assign) and any(
+        isinstance(t, ast.Attribute) and t.attr == "block_target" for t in st.targets)
+        and not (isinstance(st.value, ast.Constant) and st.value.value is None)]
+    for st in sets:
+      tv = [t for t in st.targets if isinstance(t, ast.Attribute)][0].value
+      g = _isinstance_classes(ctx, mod, st, dotted(tv), gfn, group) if isinstance(tv, ast.Name) else None
+      if g and g <= REF.BLOCK_POP:
+        pb.append(st)
   ctx.check(len(pb) == 1 and src(pb[0].value).endswith(".target"),
             "add_pop_block_targets:POP_BLOCK", BLOCKS, ap.lineno,
             "POP_BLOCK must get the target of the innermost pushed block as "
@@ -969,11 +1144,12 @@ _STREAM_PASSES = {
 }
 
 
-def _stream_names(fn):
+def _stream_names(fn, seed=None):
   """Names that denote the whole instruction stream / exception table / block
-  list inside fn: its parameters and locals derived from them by list(),
-  sorted(), enumerate(), .items(), .entries."""
-  names = {a.arg for a in fn.args.args + fn.args.kwonlyargs}
+  list inside fn: its parameters (or, for a helper a pass delegates a phase
+  to, the parameters that receive a stream: `seed`) and locals derived from
+  them by list(), sorted(), enumerate(), .items(), .entries."""
+  names = {a.arg for a in fn.args.args + fn.args.kwonlyargs} if seed is None else set(seed)
   changed = True
   while changed:
     changed = False
@@ -1028,17 +1204,140 @@ def r16_8(ctx):
   for rel, fns in _STREAM_PASSES.items():
     mod = get_module(ctx, rel)
     for name in fns:
-      fn = mod.func(name)
-      names = _stream_names(fn)
-      for lp in ast.walk(fn):
-        if isinstance(lp, ast.For) and _is_stream(lp.iter, names):
-          ex = _early_exits(lp)
-          ctx.check(not ex, f"{name}:for {src(lp.iter)}", rel, lp.lineno,
-                    f"the loop over `{src(lp.iter)}` in {name} can stop early "
-                    f"({', '.join(type(x).__name__.lower() + '@' + str(x.lineno) for x in ex)}): "
-                    "later instructions / table entries are never processed",
-                    {"iter": src(lp.iter), "early_exits": len(ex)})
+      for fn, names in _phases(mod, mod.func(name)):
+        for lp in ast.walk(fn):
+          if isinstance(lp, ast.For) and _is_stream(lp.iter, names):
+            ex = _early_exits(lp)
+            where = name if fn.name == name else f"{name} (phase {fn.name})"
+            ctx.check(not ex, f"{name}:for {src(lp.iter)}", rel, lp.lineno,
+                      f"the loop over `{src(lp.iter)}` in {where} can stop early "
+                      f"({', '.join(type(x).__name__.lower() + '@' + str(x.lineno) for x in ex)}): "
+                      "later instructions / table entries are never processed",
+                      {"iter": src(lp.iter), "early_exits": len(ex), "in": fn.name})
 
+
+def _phases(mod, fn, depth=2):
+  """(function, stream names) for a pass and for the module-local helpers it
+  delegates a whole *phase* to: a call that is a statement of the pass's own
+  top-level body (`f(stream, ..)` / `x = f(stream, ..)`, unconditional, outside
+  every loop) and hands over a stream name.  Helpers called per element from
+  inside a loop (look-ups, predicates) are not phases: they may stop early."""
+  out = [(fn, _stream_names(fn))]
+  todo = [(fn, out[0][1], depth)]
+  seen = {fn}
+  while todo:
+    f, names, d = todo.pop(0)
+    if d <= 0:
+      continue
+    for st in f.body:
+      call = None
+      if isinstance(st, ast.Expr) and isinstance(st.value, ast.Call):
+        call = st.value
+      elif isinstance(st, ast.Assign) and isinstance(st.value, ast.Call):
+        call = st.value
+      if call is None:
+        continue
+      callee = U.callee_of(mod, call)
+      if callee is None or callee in seen:
+        continue
+      try:
+        pairs = U._bind(callee, call, False)  # pylint: disable=protected-access
+      except U.NotInlinable:
+        continue
+      seed = {p for p, v in pairs if _is_stream(v, names)}
+      if not seed:
+        continue
+      seen.add(callee)
+      cnames = _stream_names(callee, seed)
+      out.append((callee, cnames))
+      todo.append((callee, cnames, d - 1))
+  return out
+
+
+# -- refactored shapes (behaviour-preserving, see benign/C16-r*) used by variants ----
+
+_CLOSE_INLINE = (
+    "    if (\n"
+    "        op.no_next()\n"
+    "        or op.does_jump()\n"
+    "        or op.pops_block()\n"
+    "        or op.next is None\n"
+    "        or (op.next in targets)\n"
+    "        and (\n"
+    "            not isinstance(op.next, opcodes.GET_ANEXT)\n"
+    "            or python_version < (3, 12)\n"
+    "        )\n"
+    "    ):\n")
+_CLOSE_CALL = "    if _ends_block(op, targets, python_version):\n"
+_NEXT_DEF = "def _preprocess_async_for_and_yield(\n"
+
+
+def _ends_block_def(first, second="  if op.next is None:\n    return True\n"
+                    "  if op.next not in targets:\n    return False\n"):
+  return ("def _ends_block(op, targets, python_version):\n" + first + second +
+          "  return (\n      not isinstance(op.next, opcodes.GET_ANEXT) or python_version < (3, 12)\n  )\n\n\n")
+
+
+def _extract_closing(first, **kw):
+  return [(BLOCKS, _CLOSE_INLINE, _CLOSE_CALL),
+          (BLOCKS, _NEXT_DEF, _ends_block_def(first, **kw) + _NEXT_DEF)]
+
+
+# compute_order's per-block wiring moved into `_connect_block` (body kept at
+# its 4-space indentation, which is valid Python)
+_EXTRACT_CONNECT = [
+    (BLOCKS, "    first_op, last_op = block.code[0], block.code[-1]\n",
+     "    _connect_block(block, next_block, first_op_to_block)\n"
+     "  return cfg_utils.order_nodes(blocks)\n\n\n"
+     "def _connect_block(block, next_block, first_op_to_block):\n"
+     "    first_op, last_op = block.code[0], block.code[-1]\n"),
+    (BLOCKS, "      block.connect_outgoing(first_op_to_block[last_op.block_target])\n"
+     "  return cfg_utils.order_nodes(blocks)\n",
+     "      block.connect_outgoing(first_op_to_block[last_op.block_target])\n"),
+]
+
+_MIN_INLINE = (
+    "    _, _, node = min(\n"
+    "        (len(predecessors), node.id, node)\n"
+    "        for node, predecessors in queue.items()\n"
+    "    )\n"
+    "    del queue[node]\n")
+
+
+def _extract_pop_next(key):
+  return [(CFG_UTILS, _MIN_INLINE, "    node = _pop_next_node(queue)\n"),
+          (CFG_UTILS, "class SuccessorNode(Protocol):\n",
+           "def _pop_next_node(queue):\n"
+           f"  _, _, node = min({key} for node, predecessors in queue.items())\n"
+           "  del queue[node]\n  return node\n\n\nclass SuccessorNode(Protocol):\n")]
+
+
+_JT_INLINE = ("      op.arg = op.argval = offset_to_index[op.argval]\n"
+              "      op.target = ops[op.arg]\n")
+
+# the POP_BLOCK arm of add_pop_block_targets delegated to a helper
+_POP_ARM = ("      assert block_stack, \"POP_BLOCK without block.\"\n"
+            "      op.block_target = block_stack[-1].target\n"
+            "      block_stack = block_stack[0:-1]\n")
+
+
+def _extract_pop_arm(value):
+  return [(BLOCKS, _POP_ARM, "      block_stack = _pop_block(op, block_stack)\n"),
+          (BLOCKS, "def _split_bytecode(\n",
+           "def _pop_block(op, block_stack):\n"
+           "  assert block_stack, \"POP_BLOCK without block.\"\n"
+           f"  op.block_target = {value}\n"
+           "  return block_stack[:-1]\n\n\ndef _split_bytecode(\n")]
+
+
+# _add_setup_except delegating its whole work to a phase helper
+_SETUP_DELEGATES = [
+    (OPC, "def _add_setup_except(\n", "def _add_setup_except_impl(\n"),
+    (OPC, "def _get_opcode_following_cleanup_throw_jump_pairs(\n",
+     "def _add_setup_except(offset_to_op, exc_table):\n"
+     "  _add_setup_except_impl(offset_to_op, exc_table)\n\n\n"
+     "def _get_opcode_following_cleanup_throw_jump_pairs(\n"),
+]
 
 VARIANTS = [
     # -- R16.1
@@ -1192,4 +1491,85 @@ VARIANTS = [
     {"name": "twin-async-for-continue", "rule": "R16.8", "file": "pytype/pyc/opcodes.py", "expect": "silent",
      "old": "      for jump_backward in get_anext_incoming[get_anext]:\n        jump_backward.end_async_for_target = offset_to_op[e.target]\n",
      "new": "      for jump_backward in get_anext_incoming[get_anext]:\n        jump_backward.end_async_for_target = offset_to_op[e.target]\n      continue\n"},
+    # -- behaviour-preserving refactorings (whole patches) must stay silent
+    {"name": "twin-benign-C16-r1-extract-helpers", "rule": "R16.4",
+     "patch": "benign/C16-r1/patch.diff", "expect": "silent"},
+    {"name": "twin-benign-C16-r2-split-setup-except", "rule": "R16.8",
+     "patch": "benign/C16-r2/patch.diff", "expect": "silent"},
+    {"name": "twin-benign-C16-r3-pop-next-node", "rule": "R16.4",
+     "patch": "benign/C16-r3/patch.diff", "expect": "silent"},
+    {"name": "twin-benign-C16-r4-block-stack-helper", "rule": "R16.6",
+     "patch": "benign/C16-r4/patch.diff", "expect": "silent"},
+    # -- the same defects, seeded into the refactored shapes
+    {"name": "twin-closing-predicate-extracted", "rule": "R16.4", "expect": "silent",
+     "edits": _extract_closing(
+         "  if op.no_next() or op.does_jump() or op.pops_block():\n    return True\n")},
+    {"name": "extracted-predicate-ignores-pops_block", "rule": "R16.4", "expect": "fire",
+     "edits": _extract_closing("  if op.no_next() or op.does_jump():\n    return True\n")},
+    {"name": "extracted-predicate-and-instead-of-or", "rule": "R16.4", "expect": "fire",
+     "edits": _extract_closing(
+         "  if op.no_next() and op.does_jump() or op.pops_block():\n    return True\n")},
+    # `None in targets` is False, so the last block of the code is never closed
+    {"name": "extracted-predicate-tests-targets-before-end-of-code", "rule": "R16.4",
+     "expect": "fire",
+     "edits": _extract_closing(
+         "  if op.no_next() or op.does_jump() or op.pops_block():\n    return True\n",
+         second="  if op.next not in targets:\n    return False\n"
+                "  if op.next is None:\n    return True\n")},
+    {"name": "extracted-predicate-inverted-guard", "rule": "R16.4", "expect": "fire",
+     "edits": _extract_closing(
+         "  if op.no_next() or op.does_jump() or op.pops_block():\n    return True\n",
+         second="  if op.next is None:\n    return True\n"
+                "  if op.next in targets:\n    return False\n")},
+    {"name": "extracted-predicate-loses-does-jump-R16.20", "rule": "R16.20", "expect": "fire",
+     "edits": _extract_closing(
+         "  if op.no_next() or op.has_known_jump() or op.pops_block():\n    return True\n")},
+    {"name": "twin-connect-block-extracted", "rule": "R16.5", "expect": "silent",
+     "edits": _EXTRACT_CONNECT},
+    {"name": "connect-block-extracted-without-D17-loop", "rule": "R16.5", "expect": "fire",
+     "edits": _EXTRACT_CONNECT + [(BLOCKS, _D17_LOOP, "")]},
+    {"name": "connect-block-extracted-fallthrough-unconditional", "rule": "R16.4",
+     "expect": "fire",
+     "edits": _EXTRACT_CONNECT + [
+         (BLOCKS, "    if next_block and not last_op.no_next():", "    if next_block:")]},
+    {"name": "connect-block-extracted-block_target-edge-removed", "rule": "R16.4",
+     "expect": "fire",
+     "edits": [_EXTRACT_CONNECT[0],
+               (BLOCKS, "    if last_op.block_target:\n"
+                "      block.connect_outgoing(first_op_to_block[last_op.block_target])\n"
+                "  return cfg_utils.order_nodes(blocks)\n", "")]},
+    {"name": "twin-pop-next-node-extracted", "rule": "R16.4", "expect": "silent",
+     "edits": _extract_pop_next("(len(predecessors), node.id, node)")},
+    {"name": "pop-next-node-extracted-key-without-id", "rule": "R16.4", "expect": "fire",
+     "edits": _extract_pop_next("(len(predecessors), node)")},
+    {"name": "twin-jump-index-hoisted", "rule": "R16.3", "file": OPC, "expect": "silent",
+     "old": _JT_INLINE,
+     "new": "      target_index = offset_to_index[op.argval]\n"
+            "      op.arg = op.argval = target_index\n"
+            "      op.target = ops[target_index]\n"},
+    {"name": "hoisted-jump-index-from-raw-arg", "rule": "R16.3", "file": OPC, "expect": "fire",
+     "old": _JT_INLINE,
+     "new": "      target_index = offset_to_index[op.arg]\n"
+            "      op.arg = op.argval = target_index\n"
+            "      op.target = ops[target_index]\n"},
+    {"name": "hoisted-jump-index-read-after-overwrite", "rule": "R16.3", "file": OPC,
+     "expect": "fire", "old": _JT_INLINE,
+     "new": "      op.argval = op.arg\n"
+            "      target_index = offset_to_index[op.argval]\n"
+            "      op.arg = op.argval = target_index\n"
+            "      op.target = ops[target_index]\n"},
+    {"name": "jump-index-through-unknown-helper", "rule": "R16.3", "file": OPC,
+     "expect": "error", "old": _JT_INLINE,
+     "new": "      op.arg = op.argval = _lookup(offset_to_index, op)\n"
+            "      op.target = ops[op.arg]\n"},
+    {"name": "twin-pop-block-arm-extracted", "rule": "R16.6", "expect": "silent",
+     "edits": _extract_pop_arm("block_stack[-1].target")},
+    {"name": "extracted-pop-block-arm-targets-the-setup-op", "rule": "R16.6", "expect": "fire",
+     "edits": _extract_pop_arm("block_stack[-1]")},
+    {"name": "twin-setup-except-delegates-to-phase", "rule": "R16.8", "expect": "silent",
+     "edits": _SETUP_DELEGATES},
+    {"name": "delegated-phase-stops-at-async-for-entry", "rule": "R16.8", "expect": "fire",
+     "edits": _SETUP_DELEGATES + [
+         (OPC, "      # This entry corresponds to an `async for` block.\n      continue\n",
+          "      # This entry corresponds to an `async for` block.\n      break\n")]},
 ]
